@@ -50,13 +50,18 @@ def configs(tier, seed):
     if tier == "thorough":
         for variant in ("single", "multi"):
             out.append(dict(variant=variant, S=1, A=1 if variant == "single" else 2, N=1, H=4, W=4, stride=2, sigma="sym", num_instances=2, mode="uf"))
+    # generate_confmaps on the documented 4-D layout (n_samples, n_instances, n_nodes, 2): one channel per (instance, node)
+    for mode in ("uf", "fresh"):
+        out.append(dict(variant="single", S=1, A=2, N=1, H=4, W=4, stride=1, sigma=1.5, num_instances=2, mode=mode, four_d=True))
+        if tier == "thorough":
+            out.append(dict(variant="single", S=2, A=2, N=2, H=4, W=4, stride=2, sigma=1.5, num_instances=2, mode=mode, four_d=True))
     out.append(dict(variant="validate", seed=seed))
     return out
 
 
 def _shape(cfg):
     if cfg["variant"] == "single":
-        return (cfg["S"], cfg["N"], 2)
+        return (cfg["S"], cfg["A"], cfg["N"], 2) if cfg.get("four_d") else (cfg["S"], cfg["N"], 2)
     if cfg["variant"] == "centroid":
         return (cfg["S"], cfg["A"], 2)
     return (cfg["S"], cfg["A"], cfg["N"], 2)
@@ -82,6 +87,12 @@ def _points_index(cfg):
     """(sample, channel) -> list of flat point indices (into the points tensor / 2) contributing to that channel."""
     S, A, N = cfg["S"], cfg["A"], cfg["N"]
     m = {}
+    if cfg["variant"] == "single" and cfg.get("four_d"):
+        for s in range(S):
+            for a in range(A):
+                for n in range(N):
+                    m[(s, a * N + n)] = [(s * A + a) * N + n]
+        return m, A * N
     if cfg["variant"] == "single":
         for s in range(S):
             for n in range(N):
